@@ -124,6 +124,33 @@ def h_load_parseCron : Nat := 0x581687a9e38c9bc0
 /-- hash of the normalised skeleton of convertValue (internal/dag/builder.go) -/
 def h_load_convertValue : Nat := 0xfa47929827bca68c
 
+/-- hash of the normalised skeleton of * (internal/dag/loader.go) -/
+def h_rest_load_dag_loader_go : Nat := 0x8fcbc7276fab2dec
+
+/-- hash of the normalised skeleton of * (internal/dag/builder.go) -/
+def h_rest_load_dag_builder_go : Nat := 0x0eb8f82d0e321c14
+
+/-- hash of the normalised skeleton of * (internal/dag/parser.go) -/
+def h_rest_load_dag_parser_go : Nat := 0x8c65d6653688c2d7
+
+/-- hash of the normalised skeleton of * (internal/dag/dag.go) -/
+def h_rest_load_dag_dag_go : Nat := 0x77433398b0cf4ad9
+
+/-- hash of the normalised skeleton of * (internal/dag/step.go) -/
+def h_rest_load_dag_step_go : Nat := 0xb42d085be1e17491
+
+/-- hash of the normalised skeleton of * (internal/dag/condition.go) -/
+def h_rest_load_dag_condition_go : Nat := 0xe23a2e3d0ad2fb68
+
+/-- hash of the normalised skeleton of * (internal/patternutil/patternutil.go) -/
+def h_rest_load_patternutil_patternutil_go : Nat := 0x3daef2ecd52f8982
+
+/-- hash of the normalised skeleton of * (internal/persistence/model/status.go) -/
+def h_rest_load_persistence_model_status_go : Nat := 0xa99de046e51c60df
+
+/-- hash of the normalised skeleton of * (internal/persistence/model/node.go) -/
+def h_rest_load_persistence_model_node_go : Nat := 0x42fc9e336bdfd1bb
+
 def builderFields : List (List String) := [
   ["build", "DelaySec"],
   ["build", "Description"],
